@@ -142,7 +142,7 @@ def proof_audit(prop, plugin, tier):
                 in_ax = False
     src = open(props_v).read()
     code = strip_comments(src)
-    theorems = re.findall(r"^(?:Theorem|Lemma|Corollary)\s+(\w+)", code, re.M)
+    theorems = re.findall(r"^(?:Theorem|Lemma|Corollary|Example)\s+(\w+)", code, re.M)
     n_pa = len(re.findall(r"^Print Assumptions\s+\w+", code, re.M))
     info["theorems"] = theorems
     info["print_assumptions"] = n_pa
